@@ -44,6 +44,7 @@ func main() {
 	prop := flag.String("prop", "", "property id (C01..C20) or 'all'")
 	tier := flag.String("tier", "", "quick|thorough")
 	dump := flag.String("dump", "", "debug: dump SSA of pkgrel:func")
+	mutantSpec := flag.String("mutant", "", "self-test: analyse the tree with mutant file.json:id applied as an overlay (exit 3 if its context is not found)")
 	noFx := flag.Bool("nofixtures", false, "debug: skip positive controls")
 	only := flag.String("only", "", "debug: run only rules with this prefix")
 	out := flag.String("out", "", "evidence output directory (default <verif>/evidence)")
@@ -59,6 +60,17 @@ func main() {
 		seed, _ = strconv.ParseInt(s, 10, 64)
 	}
 	onlyRule = *only
+	if *mutantSpec != "" {
+		ok, err := applyMutantOverlay(*repo, *mutantSpec)
+		if err != nil {
+			fmt.Println("MUTANT ERROR:", err)
+			os.Exit(2)
+		}
+		if !ok {
+			fmt.Println("mutant context not found")
+			os.Exit(3)
+		}
+	}
 
 	if *dump != "" {
 		p, err := loadProg(*repo, "", "", []string{"./leveldb/..."}, 13)
@@ -141,7 +153,7 @@ func main() {
 					}
 				}
 				if *tier == "thorough" {
-					runThorough(id, d, p, r, *repo)
+					runThorough(id, d, p, r, *repo, *verif)
 				}
 			}()
 		}
